@@ -1,2 +1,128 @@
-(* C19 property theorems (filled in below). *)
-From LV Require Import Route.Model.
+(* C19 — every route the pathfinder returns is payable under all stated
+   constraints.  Property theorems; proofs are in Proofs.v, LinkC09.v, Search.v. *)
+From Coq Require Import ZArith List Bool.
+From LV Require Import Route.Model Route.Proofs Route.LinkC09 Route.Search.
+Import ListNotations.
+Local Open Scope Z_scope.
+
+(* A route the executable checker accepts satisfies every clause of the
+   property (route_ok, Proofs.v): connected from source to target over existing
+   policies of the graph; every channel can carry what flows over it (min/max
+   HTLC, capacity, not ignored, enabled, and for channels of [self] bandwidth
+   hint and outgoing-channel set); every forwarding node is left at least its
+   fee (outbound + inbound, floored at 0) and its time lock delta and is never
+   out of pocket; receiver gets exactly [amt] at height + final delta; total
+   fees within the fee limit, total time lock within the CLTV limit, last-hop
+   restriction respected, onion payload fits. *)
+Theorem C19_checker_sound :
+  forall g en rs amt src dst r sizes,
+    route_valid g en rs amt src dst r sizes = true ->
+    exists es, resolve g src (r_hops r) = Some es /\
+               route_ok g en rs amt src dst r sizes es.
+Proof. exact checker_sound. Qed.
+
+(* newRoute's per-hop amounts and time locks add up to its totals. *)
+Theorem C19_newroute_consistent :
+  forall en src amt es,
+    es <> [] -> 0 < amt ->
+    let r := new_route en src amt es in
+    r_src r = src /\
+    length (r_hops r) = length es /\
+    receiver_amt r = amt /\
+    last_tl (r_hops r) = height en + final_delta en /\
+    last_to src (r_hops r) = e_to (last es (mkEdge 0 0 0 false 0 0 false 0 0 0 0 0 0)) /\
+    r_amt r = receiver_amt r + zsum (hop_fees r) /\
+    total_fees r = zsum (hop_fees r) /\
+    Forall (fun f => 0 <= f) (hop_fees r) /\
+    r_tl r = height en + final_delta en + deltas_after_first es.
+Proof. exact newroute_consistent. Qed.
+
+(* If every edge of a path can carry the amount newRoute puts on it, the hops
+   newRoute builds pass the per-hop part of the checker: each forwarding node
+   keeps exactly its fee and exactly its time lock delta. *)
+Theorem C19_newroute_pays_exact_fees :
+  forall en rs amt tl0 es,
+    es <> [] -> carried_ok en rs amt tl0 es = true ->
+    let x := new_route_aux amt tl0 es in
+    hops_ok en rs (snd3 x) (thd3 x) es (fst3 x) = true.
+Proof. exact newroute_hops_ok. Qed.
+
+(* Cross-check with C09: at every forwarding node of a checker-accepted route
+   the link's forwarding rule (outgoing channel's policy, incoming channel's
+   inbound fee, the hop's amounts and expiries) answers OK, provided the
+   height, the link's cltv bounds and its balance allow; both for the
+   unbounded rule and, on C09's domain D, for Go's machine arithmetic. *)
+Theorem C19_hop_passes_C09 :
+  forall g en rs amt src dst r sizes,
+    route_valid g en rs amt src dst r sizes = true ->
+    exists es, resolve g src (r_hops r) = Some es /\
+    forall ein eout h a_in tl_in rej maxcltv bw hgt,
+      forwards (r_amt r) (r_tl r) es (r_hops r) ein eout h a_in tl_in ->
+      hgt + rej < h_tl h -> h_tl h <= hgt + maxcltv ->
+      tl_in - h_tl h <= maxcltv -> h_amt h <= bw ->
+      P.check_forward_s (link_env eout rej maxcltv bw) (htlc_of ein a_in tl_in h hgt)
+        = P.ok_result /\
+      (P.D (link_env eout rej maxcltv bw) (htlc_of ein a_in tl_in h hgt) ->
+       P.check_forward_m (link_env eout rej maxcltv bw) (htlc_of ein a_in tl_in h hgt)
+        = P.ok_result).
+Proof.
+  intros g en rs amt src dst r sizes H.
+  destruct (checker_sound _ _ _ _ _ _ _ _ H) as (es & Hr & Hok).
+  exists es. split; [exact Hr|]. intros.
+  split; [|intros HD]; [eapply hop_passes_C09_spec | eapply hop_passes_C09_machine];
+    try eassumption; exact (ok_hops _ _ _ _ _ _ _ _ _ Hok).
+Qed.
+
+(* getEdgeLocal / getEdgeNetwork only hand out a policy that was offered, with
+   a time lock delta at least the channel's own (the maximum over all usable
+   parallel channels), and that can carry the amount sent over it. *)
+Theorem C19_get_edge_sound :
+  forall en local es net nout e,
+    get_edge en local es net nout = Some e ->
+    exists o, In o es /\ syn o e /\ inb_same o e /\
+      let a := net + capped_inbound o net nout in
+      in_range o a = true /\
+      (local = true -> bw_ok en o a = true) /\
+      (local = false -> e_disabled o = false /\
+         forall x, In x es -> usable_net net nout x = true -> e_delta x <= e_delta e).
+Proof. exact get_edge_sound. Qed.
+
+(* Search invariant, base: the entry created by relaxing an edge into the
+   target describes a one-hop suffix the checker accepts. *)
+Theorem C19_search_invariant_init :
+  forall en rs amt src dst last_size, 0 <= fee_limit rs ->
+  forall o e payload n',
+    syn o e -> e_to e = dst ->
+    edge_ok en rs o amt = true ->
+    (forall n, last_hop rs = Some n -> e_from o = n) ->
+    relax en rs amt src (zero_inbound e) (target_entry en dst amt last_size) payload = Some n' ->
+    inv en rs amt src dst n' [zero_inbound e] [o] [last_size].
+Proof. exact relax_from_target. Qed.
+
+(* Search invariant, step: relaxing an edge into a (non-source) node whose
+   entry satisfies the invariant yields an entry that satisfies it for the
+   extended path: the amounts / time locks processEdge accumulated are the
+   ones newRoute will recompute, the checker accepts the extended suffix for
+   them, and fee / cltv / payload limits hold. *)
+Theorem C19_search_invariant :
+  forall en rs amt src dst, 0 <= fee_limit rs ->
+  forall to es os szs o e payload n',
+    inv en rs amt src dst to es os szs ->
+    n_node to <> src ->
+    syn o e -> inb_same o e -> e_to e = n_node to ->
+    edge_ok en rs o (n_net to + Z.max (inbound_fee e (n_net to)) (- n_outfee to)) = true ->
+    relax en rs amt src e to payload = Some n' ->
+    exists own, inv en rs amt src dst n' (e :: es) (o :: os) (own :: szs).
+Proof. exact relax_step. Qed.
+
+(* Consequence: once the source's entry satisfies the invariant, the route
+   newRoute builds from its chain is accepted by the checker (hence, by
+   C19_checker_sound, satisfies every clause of the property). *)
+Theorem C19_search_sound :
+  forall en rs amt src dst g n es os szs,
+    inv en rs amt src dst n es os szs ->
+    n_node n = src ->
+    resolve g src (r_hops (new_route en src amt es)) = Some os ->
+    0 < amt ->
+    route_valid g en rs amt src dst (new_route en src amt es) szs = true.
+Proof. exact search_sound. Qed.
